@@ -197,6 +197,13 @@ impl LedgerMachine {
     fn compute_fp(&self, st: &mut St) -> Vec<u8> {
         let nres = st.totals.len();
         let sim = &mut st.sim;
+        // structure summary: number of stored nodes per entity type (new accounts, packages, KV stores, vaults …)
+        let mut shape: BTreeMap<u8, u32> = BTreeMap::new();
+        if self.mode == Mode::C05 {
+            for n in all_nodes(sim.substate_db()) {
+                *shape.entry(n.0[0]).or_insert(0) += 1;
+            }
+        }
         let comps = [self.w.a.addr, self.w.b.addr, self.x.pool, self.x.validator];
         let res = [self.w.f18, self.w.f2, self.w.nf, self.w.rc, self.x.pool_unit, self.x.stake_unit, self.x.claim_nft];
         let mut fp = balances_fp(sim, &comps, &res);
@@ -208,6 +215,7 @@ impl LedgerMachine {
         let epoch = sim.get_current_epoch().number();
         fp.extend(format!("e{epoch};").into_bytes());
         // freeze flag of B's rc vault, number of resources (CreateToken), A's f18 vault lock-free
+        fp.extend(format!("s{shape:?};").into_bytes());
         fp.extend(format!("r{nres};").into_bytes());
         if let Some(v) = sim.get_component_vaults(self.w.b.addr, self.w.rc).first() {
             let frozen: Option<radix_engine::blueprints::resource::FungibleVaultFreezeStatusFieldPayload> = radix_engine::system::system_db_reader::SystemDatabaseReader::new(sim.substate_db())
@@ -227,11 +235,17 @@ pub fn run(ctx: Ctx, mode: Mode) -> ! {
         (Mode::C03, false) => (4, 0, 900.0),
         (Mode::C04, true) => (3, 2, 40.0),
         (Mode::C04, false) => (4, 3, 700.0),
-        (Mode::C05, true) => (2, 2, 45.0),
-        (Mode::C05, false) => (3, 3, 900.0),
+        (Mode::C05, true) => (3, 2, 45.0),
+        (Mode::C05, false) => (4, 3, 900.0),
     };
     let main_full = if mode == Mode::C04 { 0 } else { full_depth };
-    let m = LedgerMachine { root, w, x, mode, full_check_depth: main_full, menu: STD_MENU.to_vec() };
+    let mut menu = STD_MENU.to_vec();
+    if mode == Mode::C05 {
+        // C05 explores the structure-changing menu first, then the standard one
+        menu = STRUCT_MENU.iter().chain(STD_MENU.iter()).copied().collect();
+    }
+    let menu_names: Vec<String> = menu.iter().map(|t| format!("{t:?}")).collect();
+    let m = LedgerMachine { root, w, x, mode, full_check_depth: main_full, menu };
     let mut stats: BfsStats = bfs(&ctx, &m, "world+pool+validator", depth, 2_000_000, cap_s);
     if mode == Mode::C04 && full_depth > 0 {
         // second exploration on a world without the freezable resource, where the engine's own
@@ -243,7 +257,7 @@ pub fn run(ctx: Ctx, mode: Mode) -> ! {
         stats.add(&s2);
     }
     let mut cov = stats.coverage();
-    cov.insert("menu".into(), json!(STD_MENU.iter().map(|t| format!("{t:?}")).collect::<Vec<_>>()));
+    cov.insert("menu".into(), json!(menu_names));
     cov.insert("engine_full_checkers_up_to_depth".into(), json!(full_depth));
     let (rule, assumptions): (&str, Vec<&str>) = match mode {
         Mode::C03 => (
